@@ -47,6 +47,11 @@ type c10Scenario struct {
 	// Configured: association 0 is set up by the agent towards a peer of its configuration (cpiface.peers), given as an
 	// address ("addr") or as a host name ("name") that the execution's name service resolves to the peer's address
 	Configured string `json:"configured,omitempty"`
+	// Restarted: after its association peer 0 sends a second Association Setup Request over the same connection with a
+	// newer Recovery Time Stamp (the peer restarted) and only then establishes its sessions
+	Restarted bool `json:"restarted,omitempty"`
+	// InFlightDel: a Session Deletion Request for the first session of association 0 travels together with the triggers
+	InFlightDel bool `json:"inflightdel,omitempty"`
 }
 
 const c10PeerHostName = "smf.core.example.org"
@@ -188,15 +193,21 @@ func c10Run(sc c10Scenario, prefix []int, sigs []string) (*vsched.Sched, schedVe
 				p.Send(c10N4+":8805", (&sReq{Kind: kAssoc, Seq: 1}).build(conns[i]).marshal())
 			}
 			vsched.Quiesce("assoc")
+			nAssocResp := 1
+			if i == 0 && sc.Restarted {
+				p.Send(c10N4+":8805", (&sReq{Kind: kAssoc, Seq: 2, TSOff: 10}).build(conns[i]).marshal())
+				vsched.Quiesce("assoc-restarted-peer")
+				nAssocResp = 2
+			}
 			for k := 0; k < sc.Sessions; k++ {
 				p.Send(c10N4+":8805", c10Est(conns[i], uint64(0x70+i*4+k), i*4+k))
 				vsched.Quiesce("est")
 			}
-			if len(p.Inbox) != 1+sc.Sessions {
-				prologueErr = fmt.Sprintf("association %d: %d responses to %d requests", i, len(p.Inbox), 1+sc.Sessions)
+			if len(p.Inbox) != nAssocResp+sc.Sessions {
+				prologueErr = fmt.Sprintf("association %d: %d responses to %d requests", i, len(p.Inbox), nAssocResp+sc.Sessions)
 				return
 			}
-			for _, b := range p.Inbox[1:] {
+			for _, b := range p.Inbox[nAssocResp:] {
 				if d, err := vDecode(b); err == nil && d.HasFSEID {
 					seids = append(seids, d.UPSEID)
 				} else {
@@ -262,6 +273,9 @@ func c10Run(sc c10Scenario, prefix []int, sigs []string) (*vsched.Sched, schedVe
 		}
 		if sc.InFlight && sc.NAssoc > 0 {
 			w.peers[0].Send(c10N4+":8805", c10Est(conns[0], 0x99, 9))
+		}
+		if sc.InFlightDel && sc.NAssoc > 0 && len(seids) > 0 {
+			w.peers[0].Send(c10N4+":8805", (&sReq{Kind: kDel, SEID: seids[0], Seq: 120}).build(conns[0]).marshal())
 		}
 		if sc.InFlightHB && sc.NAssoc > 0 {
 			at := time.Duration(0)
@@ -539,6 +553,18 @@ func c10Scenarios() []c10Scenario {
 			out[len(out)-1].Configured = how
 			out[len(out)-1].Name += "+configured-by-" + how
 		}
+	}
+	// the peer restarted (second Association Setup with a newer Recovery Time Stamp) before it established its sessions
+	for _, trig := range [][]string{{"release@0"}, {"hbfail@0"}, {"stop"}} {
+		add(1, 1, false, false, trig...)
+		out[len(out)-1].Restarted = true
+		out[len(out)-1].Name += "+restarted-peer"
+	}
+	// a Session Deletion Request in flight while the association is torn down by another goroutine
+	for _, trig := range [][]string{{"stop"}, {"hbfail@0"}, {"readtimeout@0"}} {
+		add(1, 1, false, false, trig...)
+		out[len(out)-1].InFlightDel = true
+		out[len(out)-1].Name += "+inflight-del"
 	}
 	// "with any number of live associations": more than the node's completion channel buffers (100)
 	for _, n := range []int{101, 130} {
